@@ -126,7 +126,9 @@ def score_fn(
   else:
     target = 'tail'
   ops_dict = {
-      'ggt_intrinsic_rank': lambda x: jnp.trace(x) / jnp.linalg.norm(x, 2),
+      'ggt_intrinsic_rank': (
+          lambda x: jnp.trace(x) / jnp.linalg.norm(x, 2) if jnp.trace(x) else 0
+      ),
       'ggt_trace': jnp.trace,
       'tail_rho': lambda x: x,
       'sketch_intrinsic_rank': (
